@@ -16,3 +16,5 @@ def check(rep, tier):
     rep.run(guards.run, rep, tier)            # an unsupported configuration that stops raising returns a wrong gradient
     from contracts import rules_numeric as _rn
     rep.run(_rn.run_near_tie, rep)
+    from contracts import rules_shape as _rs
+    rep.run(_rs.run_linalg, rep, tier)      # E3 over autograd/numpy/linalg.py: symbolic matrix and batch sizes
